@@ -28,9 +28,19 @@ func HandleBlockRequest(blockchain blockchain.Blockchain, req CE128Payload) ([]t
 	switch req.Direction {
 	case 0:
 		currentHash := req.HeaderHash
+		// children are looked up by block number: from the number after the
+		// current block's (0 if the store does not know it) up to the head's
+		headNumber := uint32(0)
+		if head, err := blockchain.GetCurrentHead(); err == nil {
+			headNumber = uint32(head.Header.Slot)
+		}
 		for i := uint32(0); i < count; i++ {
 			found := false
-			for blockNum := uint32(0); blockNum < 10; blockNum++ {
+			firstNumber := uint32(0)
+			if n, err := blockchain.GetBlockNumber(currentHash); err == nil {
+				firstNumber = n + 1
+			}
+			for blockNum := firstNumber; blockNum <= headNumber && blockNum >= firstNumber; blockNum++ {
 				candidateHashes, err := blockchain.GetBlockHashByNumber(blockNum)
 				if err != nil {
 					continue
